@@ -5,7 +5,7 @@ from __future__ import annotations
 import ast
 
 from .. import AnalysisError
-from ..astutil import bind_call, walk_stmts
+from ..astutil import single_def, bind_call, walk_stmts
 from ..consumption import Consumption, Recorder, State, _handler_catches
 from ..excflow import ExcFlow
 from ..littype import lit_locals
@@ -30,6 +30,8 @@ EXPLANATION = (
 )
 TECHNIQUE += '; counted-loop consumption idiom check'
 EXPLANATION += ' Added: (R8) counted record loops read lines with next(lit) (raises at end of file), never through zip/islice over the line iterator or next(lit, default).'
+TECHNIQUE += '; zip-driven frame-loop rule; all-paths-raise on the API funnel'
+EXPLANATION += ' Added: (R9) frames yielded from zip() over several arrays come from a materialised sequence whose own length is checked / announced, or from zip(strict=True); R2 also requires every handler of api.load_many to raise (a StopIteration leaving a format generator arrives as RuntimeError: PEP 479).'
 TRUSTED = ["CPython ast parser", "PEP 479", "a for-loop consumes its iterator lazily, one element per iteration"]
 
 CONCAT_FORMATS = ("xyz", "extxyz", "pdb", "mol2", "sdf", "gromacs")
@@ -226,6 +228,18 @@ def run(ctx):
             for n in [x for s in floop.body for x in ast.walk(s) if isinstance(x, ast.Continue)]:
                 ctx.violate("R7", f"{short}.load_many skips frames with `continue`", g, n)
     ctx.floor("R2", nlm, 7, "format load_many generators")
+    # the API funnel itself: a StopIteration that leaves a format generator arrives as RuntimeError (PEP 479); no handler
+    # of api.load_many may end the sequence quietly on it
+    from .c07 import _ends_raising
+
+    alm = prog.func("iodata.api.load_many")
+    for t in [n for n in alm.own_nodes() if isinstance(n, ast.Try)]:
+        for h in t.handlers:
+            only_si = isinstance(h.type, ast.Name) and h.type.id == "StopIteration"
+            if only_si or _ends_raising(h.body):
+                ctx.ok("R2", f"api.load_many: handler `except {src_of(h.type) if h.type is not None else ''}` " + ("is unreachable for a generator body (PEP 479)" if only_si else "always raises"), f"{alm.module.relpath}:{h.lineno}", sample=False)
+            else:
+                ctx.violate("R2", f"api.load_many: the handler `except {src_of(h.type) if h.type is not None else ''}` can end the trajectory without an error: a file cut inside a frame yields fewer frames silently", alm, h)
 
     # ------------------------------------------------------------------ R8
     ctx.rule("R8", "counted record loops consume lines with next(), which raises at end of file", "a file cut inside a counted block yields a partially filled frame without warning or error")
@@ -260,6 +274,47 @@ def run(ctx):
                             else:
                                 ctx.ok("R8", f"{f.name}: counted loop `for {src_of(n.target)} in {src_of(it)}` reads with next(lit)", f"{f.module.relpath}:{n.lineno}", sample=(ncounted % 8 == 1))
     ctx.floor("R8", ncounted, 15, "counted record loops")
+
+    # ------------------------------------------------------------------ R9
+    ctx.rule("R9", "frames driven by zip() over several arrays: the shortest array cannot drop frames unnoticed", "steps present in one array but missing from another are dropped silently, or the announced frame count differs from the frames yielded")
+    nzip = 0
+    for short, mod in fm.items():
+        g = prog.format_op(short, "load_many")
+        if g is None:
+            continue
+        for lp in [n for n in g.own_nodes() if isinstance(n, ast.For) and any(isinstance(x, ast.Yield) for s_ in n.body for x in ast.walk(s_))]:
+            it = lp.iter
+            if isinstance(it, ast.Call) and getattr(it.func, "id", "") == "enumerate" and it.args:
+                it = it.args[0]
+            src = it
+            name = None
+            if isinstance(it, ast.Name):
+                name = it.id
+                d = single_def(g, it.id)
+                # defined inside an outer loop: take the assignment in the enclosing body
+                if d is None:
+                    cands = [n.value for n in g.own_nodes() if isinstance(n, ast.Assign) and len(n.targets) == 1 and isinstance(n.targets[0], ast.Name) and n.targets[0].id == it.id]
+                    d = cands[-1] if len(cands) == 1 else None
+                src = d if d is not None else it
+            inner = src
+            materialised = False
+            if isinstance(inner, ast.Call) and getattr(inner.func, "id", "") in ("list", "tuple") and inner.args:
+                materialised = True
+                inner = inner.args[0]
+            if not (isinstance(inner, ast.Call) and getattr(inner.func, "id", "") == "zip" and len(inner.args) >= 2):
+                continue
+            nzip += 1
+            strict = any(k.arg == "strict" and isinstance(k.value, ast.Constant) and k.value.value is True for k in inner.keywords)
+            measured = name is not None and materialised and any(isinstance(c, ast.Compare) and any(isinstance(x, ast.Call) and getattr(x.func, "id", "") == "len" and x.args and isinstance(x.args[0], ast.Name) and x.args[0].id == name for x in ast.walk(c)) for c in g.own_nodes())
+            counts_other = [x for n in g.own_nodes() if isinstance(n, ast.Dict) for k, v in zip(n.keys, n.values) if isinstance(k, ast.Constant) and isinstance(k.value, str) and k.value.startswith("n") for x in ast.walk(v) if isinstance(x, ast.Call) and getattr(x.func, "id", "") == "len" and x.args and isinstance(x.args[0], ast.Name) and x.args[0].id != name and any(isinstance(a, ast.Name) and a.id == x.args[0].id for a in ast.walk(inner))]
+            if strict or measured:
+                if counts_other:
+                    ctx.violate("R9", f"{short}.load_many announces a count `{src_of(counts_other[0])}` taken from one zipped array, not from the zipped sequence whose items are yielded", g, counts_other[0])
+                else:
+                    ctx.ok("R9", f"{short}.load_many: the zipped frame sequence is " + ("strict" if strict else f"materialised and its length `len({name})` is checked / announced"), f"{g.module.relpath}:{lp.lineno}")
+            else:
+                ctx.violate("R9", f"{short}.load_many yields frames from `zip(...)` over {len(inner.args)} arrays without measuring the zipped sequence (zip stops at the shortest array: missing steps are dropped silently)", g, inner)
+    ctx.floor("R9", nzip, 1, "zip-driven frame loops")
 
     # dump side of R6
     ndm = 0
